@@ -63,7 +63,7 @@ def discharge(axioms, ob: Obligation, tier: str = "quick", budget_ms: int = 1000
         # must-fail obligation: an `unsat` here means the hypotheses are inconsistent and every
         # other obligation of the function would be vacuously discharged
         s = z3.Solver()
-        s.set("timeout", 3000)
+        s.set("timeout", 1500)
         s.set("smt.mbqi", False)
         for a in axioms:
             s.add(a)
@@ -75,9 +75,15 @@ def discharge(axioms, ob: Obligation, tier: str = "quick", budget_ms: int = 1000
             return Verdict(ob.name, "unknown", "z3-5.1", ms, ob.where, ob.kind, "hypotheses are contradictory: `False` was proved")
         return Verdict(ob.name, "discharged", "z3-5.1", ms, ob.where, ob.kind, f"not refutable ({r}), as required")
     r = None
-    for mbqi in (False, True):
+    # e-matching only; then with MBQI; then e-matching again with another seed and twice the
+    # budget (quantifier instantiation order is seed dependent: a proof found in 7 s with one
+    # seed can need 15 s with another)
+    for mbqi, seed, factor in ((False, 0, 1), (True, 0, 1), (False, 7, 2)):
         s = z3.Solver()
-        s.set("timeout", budget_ms)
+        s.set("timeout", budget_ms * factor)
+        if seed:
+            s.set("random_seed", seed)
+            s.set("smt.random_seed", seed)
         if not mbqi:
             s.set("smt.mbqi", False)
         for a in axioms:
